@@ -905,6 +905,12 @@ class CeiloChunk(AbstractChunk):
         # Get ready to add the layering info to the data
         self.data.loc[:, 'layer_id'] = None
 
+        # The ids of the sub-layers must not collide with any of the group ids (that can be larger
+        # than 100 if there are many slices).
+        id_offset = 100
+        if len(self.groups) > 0:
+            id_offset *= 1 + int(self.groups['cluster_id'].max()) // 100
+
         # Loop through every group, and look for sub-layers in it ...
         for ind in range(len(self.groups)):
 
@@ -959,7 +965,7 @@ class CeiloChunk(AbstractChunk):
             if ncomp > 1:
                 self.data.loc[self.data.loc[:, 'group_id'] ==
                               self._groups.at[ind, 'cluster_id'], 'layer_id'] = \
-                    100+10*ind+sub_layers_id
+                    id_offset+10*ind+sub_layers_id
 
         # Deal with the points that have not been assigned a layer id yet
         to_fill = self.data['layer_id'].isna()
